@@ -2,14 +2,19 @@
 C14 — WebAuthn JSON parses leniently, re-parses when emitted, client data keeps order.
 Property theorems only.  Proved for all byte strings / all texts: the base64 round trips, the agreement of
 the presentations of a binary member and of a number under the models of the `Bytes` visitor and of
-`StringOrNum`, and the member order of re-serialised client data.  The struct-level statements (every
-presentation of a whole options value — with injected unknown members, enumeration strings and list
-entries — parses to the same value; emitted credentials re-parse to an equal value) are serde-derived
-code over those leaves: they are checked on the real parser by the stream (PARTIAL), as are the leaf
-models themselves (compared on every leaf input).
+`StringOrNum`, and the member order of re-serialised client data.  The struct level: the serde attributes of
+the option structs and enums are regenerated from the source (Generated/WebauthnSchema.lean) and interpreted
+by a model of what `#[derive(Deserialize)]` and the helpers of utils/serde.rs do (Model/SerdeStruct.lean,
+compared with the real parsers on every document of the stream); proved of that model, for every schema:
+unknown members are ignored wherever they stand and whatever their value, an unknown enumeration string
+gives the default instead of an error, list entries that do not parse are dropped, and the parsed value
+depends on a binary or numeric member only through the bytes / number it denotes.  That emitted credentials
+re-parse to an equal value is checked on the real serialiser and parser by the stream only.
 -/
 import PasskeyVerif.Lemmas.Base64
+import PasskeyVerif.Lemmas.Serde
 import PasskeyVerif.Model.WebauthnJson
+import PasskeyVerif.Generated.WebauthnSchema
 namespace PasskeyVerif.C14
 open PasskeyVerif PasskeyVerif.Json PasskeyVerif.WJson
 
@@ -92,5 +97,187 @@ theorem C14_client_data_order (keys : List String) :
   refine ⟨rfl, rfl, ?_⟩
   show (keys.filter _).Sublist keys
   exact List.filter_sublist
+
+/-! ### the serde-derived struct parsers (model: Model/SerdeStruct.lean over the regenerated schema) -/
+
+open PasskeyVerif.Serde
+
+/-- **Unknown members are ignored**: in any struct of any schema, a member whose name is neither a field
+name nor an alias changes nothing, wherever it stands among the members and whatever JSON value it has. -/
+theorem C14_unknown_members_ignored (S : Schema) (knownAlg : Int → Bool) (fuel : Nat) (buffered : Bool)
+    (n : String) (sd : StructDef) (hsd : S.struct? n = some sd) (k : String) (v : Json) (hk : sd.fieldFor k = none)
+    (l₁ l₂ : List (String × Json)) :
+    parseStruct S knownAlg fuel buffered n (l₁ ++ (k, v) :: l₂) = parseStruct S knownAlg fuel buffered n (l₁ ++ l₂) := by
+  cases fuel with
+  | zero => rfl
+  | succ f => simp only [parseStruct, hsd, memberList_unknown sd _ k v hk l₁ l₂ []]
+
+/-- ... in particular in the regenerated request options: e.g. a member "mediation" or "Challenge" -/
+example : (Generated.Webauthn.schema.struct? "PublicKeyCredentialRequestOptions").bind (fun sd => sd.fieldFor "Challenge") = none := by
+  decide +kernel
+
+/-- **An unknown enumeration string is the default, not an error**: a member read through `ignore_unknown`
+whose type is an enumeration (or an optional one) and whose value is a string that names no variant parses
+to the type's default, reading from the text as well as inside a buffered list element. -/
+theorem C14_unknown_enum_string_is_default (S : Schema) (knownAlg : Int → Bool) (fuel : Nat) (buffered : Bool)
+    (f : Field) (n : String) (e : EnumDef) (s : String)
+    (hw : f.wrap = .ignoreUnknown) (hty : f.ty = .enum n ∨ f.ty = .opt (.enum n))
+    (he : S.enum? n = some e) (hs : e.variantOf s = none) :
+    parseMember S knownAlg (fuel + 3) buffered f (.str s) = .ok (defaultOf S 8 f.ty) := by
+  rcases hty with hty | hty
+  · simp only [parseMember, hw, hty, parseTy, he, Option.bind_some, hs, isEnumish]
+    cases buffered <;> rfl
+  · simp only [parseMember, hw, hty, parseTy, he, Option.bind_some, hs, isEnumish, R.map]
+    cases buffered <;> rfl
+
+/-- ... and a known string is that variant -/
+theorem C14_known_enum_string (S : Schema) (knownAlg : Int → Bool) (fuel : Nat) (buffered : Bool)
+    (f : Field) (n : String) (e : EnumDef) (s v : String)
+    (hw : f.wrap = .ignoreUnknown) (hty : f.ty = .enum n) (he : S.enum? n = some e) (hs : e.variantOf s = some v) :
+    parseMember S knownAlg (fuel + 2) buffered f (.str s) = .ok (.enumv v) := by
+  simp only [parseMember, hw, hty, parseTy, he, Option.bind_some, hs]
+
+/-- the enumerations of the regenerated schema: "telepathic" names no user-verification requirement, "cable" is
+the alias of the hybrid transport -/
+example : ((Generated.Webauthn.schema.enum? "UserVerificationRequirement").bind (·.variantOf "telepathic")) = none
+    ∧ ((Generated.Webauthn.schema.enum? "AuthenticatorTransport").bind (·.variantOf "cable")) = some "hybrid" := by
+  decide +kernel
+
+/-- **Unknown list entries are dropped**: a list read through `ignore_unknown_opt_vec` / `ignore_unknown_vec`
+yields exactly the elements that parse, in their order; an element that does not parse changes nothing,
+wherever it stands. -/
+theorem C14_unknown_list_entries_dropped (p : Json → R Val) :
+    (∀ l, (∀ j ∈ l, p j ≠ .unmodelled) →
+        lenientList p l = .ok (l.filterMap (fun j => match p j with | .ok v => some v | _ => none)))
+    ∧ (∀ j, p j = .err → ∀ l₁ l₂, lenientList p (l₁ ++ j :: l₂) = lenientList p (l₁ ++ l₂)) :=
+  ⟨lenientList_eq p, fun j hj => lenientList_drop p j hj⟩
+
+/-- **Presentations of a member**: the struct parsed from an object depends on the value of a member only
+through what the member's own parser makes of it — so two presentations of a binary member denoting the same
+bytes, or of a timeout / algorithm identifier denoting the same number, give the same struct. -/
+theorem C14_member_presentation (S : Schema) (knownAlg : Int → Bool) (fuel : Nat) (buffered : Bool)
+    (n : String) (sd : StructDef) (hsd : S.struct? n = some sd) (k : String) (j j' : Json)
+    (h : ∀ f, sd.fieldFor k = some f → parseMember S knownAlg fuel buffered f j = parseMember S knownAlg fuel buffered f j')
+    (l₁ l₂ : List (String × Json)) :
+    parseStruct S knownAlg (fuel + 1) buffered n (l₁ ++ (k, j) :: l₂)
+      = parseStruct S knownAlg (fuel + 1) buffered n (l₁ ++ (k, j') :: l₂) := by
+  simp only [parseStruct, hsd, memberList_congr sd _ k j j' h l₁ l₂ []]
+
+/-- a binary member (plain `Bytes`, or an optional one given a value): only the bytes denoted matter -/
+theorem C14_bytes_member (S : Schema) (knownAlg : Int → Bool) (fuel : Nat) (buffered : Bool) (f : Field)
+    (hw : f.wrap = .plain) (hty : f.ty = .bytes ∨ f.ty = .opt .bytes) (j j' : Json)
+    (hn : j ≠ .null) (hn' : j' ≠ .null) (h : bytesOf j = bytesOf j') :
+    parseMember S knownAlg fuel buffered f j = parseMember S knownAlg fuel buffered f j' := by
+  cases fuel with
+  | zero => rfl
+  | succ fuel =>
+    cases fuel with
+    | zero => simp only [parseMember, hw, parseTy]
+    | succ fuel =>
+      rcases hty with hty | hty
+      · simp only [parseMember, hw, hty, parseTy, h]
+      · cases fuel with
+        | zero =>
+          cases j <;> cases j' <;> simp_all [parseMember, parseTy, R.map]
+        | succ fuel =>
+          cases j <;> cases j' <;> simp_all [parseMember, parseTy, R.map]
+
+/-- a timeout (`maybe_stringified`) or an algorithm identifier (`i64_to_iana`): only the number denoted matters -/
+theorem C14_number_member (S : Schema) (knownAlg : Int → Bool) (fuel : Nat) (buffered : Bool) (f : Field) (j j' : Json) :
+    (f.wrap = .maybeStringified → u32Of j = u32Of j' →
+        parseMember S knownAlg fuel buffered f j = parseMember S knownAlg fuel buffered f j')
+    ∧ (f.wrap = .i64ToIana → i64Of j = i64Of j' →
+        parseMember S knownAlg fuel buffered f j = parseMember S knownAlg fuel buffered f j') := by
+  cases fuel with
+  | zero => exact ⟨fun _ _ => rfl, fun _ _ => rfl⟩
+  | succ fuel =>
+    constructor
+    · intro hw h; simp only [parseMember, hw, h]
+    · intro hw h; simp only [parseMember, hw, h]
+
+/-- **End to end for the challenge of the regenerated request options**: as base64url text, as standard base64
+text with any padding, and as an array of number tokens, the same bytes give the same parsed options,
+whatever the other members are. -/
+theorem C14_challenge_presentations (knownAlg : Int → Bool) (fuel : Nat) (bs : List UInt8) (pad : Nat)
+    (tokens : List String) (hd : Denote tokens bs) (l₁ l₂ : List (String × Json)) :
+    let parse := fun (j : Json) => parseStruct Generated.Webauthn.schema knownAlg (fuel + 1) false
+      "PublicKeyCredentialRequestOptions" (l₁ ++ ("challenge", j) :: l₂)
+    parse (.str (Base64.encodeUrl bs)) = parse (.str (String.ofList (Base64.encodeChars false bs ++ List.replicate pad '=')))
+      ∧ parse (.str (Base64.encodeUrl bs)) = parse (.arr (tokens.map Json.num)) := by
+  intro parse
+  obtain ⟨h1, h2, h3⟩ := C14_binary_presentations bs pad tokens hd
+  have hsd : ∃ sd, Generated.Webauthn.schema.struct? "PublicKeyCredentialRequestOptions" = some sd
+      ∧ ∀ f, sd.fieldFor "challenge" = some f → f.wrap = .plain ∧ (f.ty = .bytes ∨ f.ty = .opt .bytes) := by
+    refine ⟨Generated.Webauthn.structs[2]!, by decide +kernel, ?_⟩
+    intro f hf
+    have : f = ⟨"challenge", "challenge", [], .bytes, false, .plain⟩ := by
+      have h : (Generated.Webauthn.structs[2]!).fieldFor "challenge" = some ⟨"challenge", "challenge", [], .bytes, false, .plain⟩ := by
+        decide +kernel
+      rw [h] at hf; exact (Option.some.inj hf).symm
+    subst this
+    exact ⟨rfl, Or.inl rfl⟩
+  obtain ⟨sd, hs, hf⟩ := hsd
+  constructor
+  · exact C14_member_presentation _ knownAlg fuel false _ sd hs "challenge" _ _
+      (fun f hff => C14_bytes_member _ knownAlg fuel false f (hf f hff).1 (hf f hff).2 _ _ (by simp) (by simp) (h1.trans h2.symm)) l₁ l₂
+  · exact C14_member_presentation _ knownAlg fuel false _ sd hs "challenge" _ _
+      (fun f hff => C14_bytes_member _ knownAlg fuel false f (hf f hff).1 (hf f hff).2 _ _ (by simp) (by simp) (h1.trans h3.symm)) l₁ l₂
+
+/-! ### what the regenerated schema must say (re-checked by the kernel on every run) -/
+
+/-- members without which the parse is an error: no `#[serde(default)]` and not a plain `Option` -/
+def requiredOf (sd : StructDef) : List String :=
+  (sd.fields.filter (fun f => !f.dflt && !(isOpt f.ty && f.wrap == .plain))).map (·.json)
+
+/-- **Every optional member may be absent**: in the option structs as they are in the source now, the members
+that must be present are exactly those WebAuthn marks as required; every other member has a default. -/
+theorem C14_required_members :
+    Generated.Webauthn.structs.map (fun sd => (sd.name, requiredOf sd)) =
+      [("CredentialRequestOptions", ["publicKey"]),
+       ("CredentialCreationOptions", ["publicKey"]),
+       ("PublicKeyCredentialRequestOptions", ["challenge"]),
+       ("PublicKeyCredentialCreationOptions", ["rp", "user", "challenge", "pubKeyCredParams"]),
+       ("PublicKeyCredentialDescriptor", ["type", "id"]),
+       ("AuthenticationExtensionsClientInputs", []),
+       ("PublicKeyCredentialRpEntity", ["name"]),
+       ("PublicKeyCredentialUserEntity", ["id", "displayName", "name"]),
+       ("PublicKeyCredentialParameters", ["type", "alg"]),
+       ("AuthenticatorSelectionCriteria", []),
+       ("AuthenticationExtensionsPrfInputs", []),
+       ("AuthenticationExtensionsPrfValues", ["first"])] := by
+  decide +kernel
+
+/-- the helper a member is read through must suit its type: enumerations (bare or optional) through
+`ignore_unknown`, lists of enumerations or of descriptors / parameters through `ignore_unknown_opt_vec` /
+`ignore_unknown_vec`, timeouts through `maybe_stringified`, algorithm identifiers through `i64_to_iana` -/
+def lenientlyRead (f : Field) : Bool :=
+  match f.ty with
+  | .enum _ => f.wrap == .ignoreUnknown
+  | .opt (.enum _) => f.wrap == .ignoreUnknown
+  | .opt (.vec (.enum _)) => f.wrap == .ignoreUnknownOptVec
+  | .opt (.vec (.struct _)) => f.wrap == .ignoreUnknownOptVec
+  | .vec (.struct _) => f.wrap == .ignoreUnknownVec
+  | .opt .u32 => f.wrap == .maybeStringified
+  | .alg => f.wrap == .i64ToIana
+  | .u32 => false
+  | _ => true
+
+/-- **Unknown enumeration strings and unknown list entries are tolerated wherever they can occur**: every member
+of an enumeration type, and every list of enumerations, descriptors or parameters, in every option struct of
+the source as it is now, is read through the lenient helper (so the three theorems above apply to it); no
+variant list is empty and every `#[default]` names a variant. -/
+theorem C14_enumeration_members_are_lenient :
+    (Generated.Webauthn.structs.all (fun sd => sd.fields.all lenientlyRead)) = true
+    ∧ (Generated.Webauthn.enums.all (fun e => !e.variants.isEmpty
+        && (match e.dflt with | some d => e.variants.any (·.1 == d) | none => true))) = true
+    ∧ (Generated.Webauthn.structs.all (fun sd => sd.fields.all (fun f => match f.ty with
+        | .enum n => ((Generated.Webauthn.schema.enum? n).bind (·.dflt)).isSome
+        | _ => true))) = true := by
+  decide +kernel
+
+/-- member names and aliases are distinct within each struct (so `fieldFor` is unambiguous) -/
+theorem C14_member_names_distinct :
+    (Generated.Webauthn.structs.all (fun sd => (sd.fields.flatMap (fun f => f.json :: f.aliases)).Nodup)) = true := by
+  decide +kernel
 
 end PasskeyVerif.C14
